@@ -49,6 +49,10 @@ class F:
                             rhs_reads = {x_.id for v_ in st.value.elts for x_ in ast.walk(v_) if isinstance(x_, ast.Name)}
                             for x_, v_ in zip(t.elts, st.value.elts):
                                 d[x_.id] = v_ if not (lhs & rhs_reads) else None
+                        elif isinstance(t, ast.Tuple) and len(st.targets) == 1 and all(isinstance(x_, ast.Name) for x_ in t.elts) and M.is_plain_path(st.value) and not ({x_.id for x_ in t.elts} & {x_.id for x_ in ast.walk(st.value) if isinstance(x_, ast.Name)}):
+                            # `a, b, c = seq` (seq a plain name / attribute path): a is seq[0], ...
+                            for k_, x_ in enumerate(t.elts):
+                                d[x_.id] = ast.copy_location(ast.Subscript(value=copy.deepcopy(st.value), slice=ast.Constant(value=k_), ctx=ast.Load()), st.value)
                         else:
                             for x_ in ast.walk(t):
                                 if isinstance(x_, ast.Name) and isinstance(x_.ctx, ast.Store):
